@@ -8,7 +8,9 @@ import (
 	"fmt"
 	"net"
 	"strconv"
+	"strings"
 	"sync"
+	"time"
 
 	"github.com/tmpim/casket"
 	"github.com/tmpim/casket/casketfile"
@@ -63,6 +65,8 @@ type ctx struct {
 	servers  int
 	graceful bool
 	fail     string
+	stopErr  bool // the graceful servers' Stop reports an error (after stopping)
+	slowMs   int  // the shutdown callback takes this long before it is done
 }
 
 func (c *ctx) InspectServerBlocks(file string, sb []casketfile.ServerBlock) ([]casketfile.ServerBlock, error) {
@@ -75,7 +79,7 @@ func (c *ctx) MakeServers() ([]casket.Server, error) {
 	}
 	var out []casket.Server
 	for i := 0; i < c.servers; i++ {
-		s := &server{gen: c.gen, idx: i, stop: make(chan struct{}), failListen: c.fail == "listen" && i == c.servers-1}
+		s := &server{gen: c.gen, idx: i, stop: make(chan struct{}), failListen: c.fail == "listen" && i == c.servers-1, stopErr: c.stopErr}
 		if c.graceful {
 			out = append(out, &gracefulServer{s})
 		} else {
@@ -91,6 +95,7 @@ type server struct {
 	stop       chan struct{}
 	stopOnce   sync.Once
 	failListen bool
+	stopErr    bool
 	ln         net.Listener
 }
 
@@ -137,6 +142,9 @@ func (g *gracefulServer) Stop() error {
 		}
 		close(g.stop)
 	})
+	if g.stopErr {
+		return fmt.Errorf("lifecycle: injected error from Stop (the server has stopped)")
+	}
 	return nil
 }
 
@@ -154,7 +162,7 @@ func Register() {
 	once.Do(func() {
 		busy, _ = net.Listen("tcp", "127.0.0.1:0")
 		casket.RegisterServerType("lifecycle", casket.ServerType{
-			Directives: func() []string { return []string{"gen", "servers", "fail"} },
+			Directives: func() []string { return []string{"opt", "gen", "servers", "fail"} },
 			NewContext: func(inst *casket.Instance) casket.Context { return &ctx{inst: inst, servers: 1} },
 		})
 		casket.RegisterPlugin("gen", casket.Plugin{ServerType: "lifecycle", Action: func(c *casket.Controller) error {
@@ -182,8 +190,30 @@ func Register() {
 				return nil
 			})
 			c.OnRestartFailed(func() error { record("restartfailed#" + g); return nil })
-			c.OnShutdown(func() error { record("shutdown#" + g); return nil })
+			c.OnShutdown(func() error {
+				if cx.slowMs > 0 {
+					time.Sleep(time.Duration(cx.slowMs) * time.Millisecond)
+				}
+				record("shutdown#" + g) // recorded when the callback is done
+				return nil
+			})
 			c.OnFinalShutdown(func() error { record("finalshutdown#" + g); return nil })
+			return nil
+		}})
+		casket.RegisterPlugin("opt", casket.Plugin{ServerType: "lifecycle", Action: func(c *casket.Controller) error {
+			cx := c.Context().(*ctx)
+			for c.Next() {
+				for _, a := range c.RemainingArgs() {
+					switch {
+					case a == "stoperr":
+						cx.stopErr = true
+					case strings.HasPrefix(a, "slow="):
+						cx.slowMs, _ = strconv.Atoi(strings.TrimPrefix(a, "slow="))
+					default:
+						return c.Err("lifecycle: unknown option")
+					}
+				}
+			}
 			return nil
 		}})
 		casket.RegisterPlugin("servers", casket.Plugin{ServerType: "lifecycle", Action: func(c *casket.Controller) error {
@@ -219,12 +249,16 @@ func Register() {
 }
 
 // Text renders a configuration of the fake server type.
-func Text(gen string, servers int, graceful bool, fail string) string {
+func Text(gen string, servers int, graceful bool, fail string, opts ...string) string {
 	g := ""
 	if graceful {
 		g = " graceful"
 	}
-	s := fmt.Sprintf("site {\n\tgen %s\n\tservers %d%s\n", gen, servers, g)
+	s := "site {\n"
+	if len(opts) > 0 {
+		s += "\topt " + strings.Join(opts, " ") + "\n"
+	}
+	s += fmt.Sprintf("\tgen %s\n\tservers %d%s\n", gen, servers, g)
 	if fail == "parse" {
 		return s + "\tgen {\n"
 	}
